@@ -18,7 +18,8 @@ ASSUMPTIONS = ["segments are atomic (they run under q.mu)"]
 
 def gen(rng, tier, open_keys):
     n = 3000 if tier == "quick" else 40000
-    return [Q.gen_case(rng, MIX) for _ in range(n)] + [Q.gen_stress(rng, tier) for _ in range(12 if tier == "quick" else 60)]
+    return [Q.gen_case(rng, MIX) for _ in range(n)] + [Q.gen_stress(rng, tier) for _ in range(12 if tier == "quick" else 60)] \
+        + [Q.gen_pre(rng) for _ in range(400 if tier == "quick" else 8000)]
 
 
 def corpus():
@@ -35,7 +36,7 @@ nontrivial = Q.nontrivial
 
 
 def shrink(line, fails):
-    return line if ("probe" in line or "stress" in line) else SL.shrink_choices(line, fails)
+    return line if not line.startswith("(queue ") else SL.shrink_choices(line, fails)
 
 
 def classify(line, obs, why):
